@@ -63,9 +63,11 @@ fn leaf_feature(v: &Val) -> &'static str {
         Val::S(s) => string_feature(s),
         Val::C(c) => string_feature(&c.to_string()),
         Val::U(n) if *n == 0 => "zero",
-        Val::U(n) if [u8::MAX as u64, u16::MAX as u64, u32::MAX as u64, u64::MAX].contains(n) => "max",
-        Val::I(n) if [i8::MIN as i64, i16::MIN as i64, i32::MIN as i64, i64::MIN].contains(n) => "min",
-        Val::I(n) if [i8::MAX as i64, i16::MAX as i64, i32::MAX as i64, i64::MAX].contains(n) => "max",
+        Val::U(n) if [u8::MAX as u128, u16::MAX as u128, u32::MAX as u128, u64::MAX as u128, u128::MAX].contains(n) => "max",
+        Val::U(n) if *n > u64::MAX as u128 => "above_u64",
+        Val::I(n) if [i8::MIN as i128, i16::MIN as i128, i32::MIN as i128, i64::MIN as i128, i128::MIN].contains(n) => "min",
+        Val::I(n) if [i8::MAX as i128, i16::MAX as i128, i32::MAX as i128, i64::MAX as i128, i128::MAX].contains(n) => "max",
+        Val::I(n) if *n > i64::MAX as i128 || *n < i64::MIN as i128 => "beyond_i64",
         Val::F(f) if *f == 0.0 => "zero",
         Val::F(f) if f.abs() >= 1e300 || (f.abs() < 1e-300) => "extreme",
         Val::Null => "none",
@@ -395,7 +397,8 @@ fn judge(case: &Case, out: Result<Outcome, String>, rep: &mut Report) {
             okind = "err";
             let feat = all_leaf_features(&case.expected);
             rep.violation(
-                json!({"kind":"spurious_error","source":src,"variant":variant}),
+                json!({"kind":"spurious_error","source":src,"variant":variant,
+                       "shape_feature": if shape_has_128(&case.kind) { "int128" } else { "other" }}),
                 json!({"error": msg, "value_features": feat, "case": case.describe()}),
             );
         }
@@ -432,6 +435,14 @@ fn judge(case: &Case, out: Result<Outcome, String>, rep: &mut Report) {
     rep.sample(&format!("{src}/{}", if case.class.starts_with("good") { "good" } else { case.class }), || {
         json!({"case": case.describe(), "outcome": format!("{out:?}").chars().take(400).collect::<String>()})
     });
+}
+
+fn shape_has_128(k: &Kind) -> bool {
+    match k {
+        Kind::Obj(fs) => fs.iter().any(|(_, k)| shape_has_128(k)),
+        Kind::Opt(k) | Kind::Seq(k) => shape_has_128(k),
+        k => k.is_128(),
+    }
 }
 
 fn all_leaf_features(v: &Val) -> String {
@@ -709,6 +720,8 @@ const FORM_CT_GOOD: &[&str] = &[
     "application/x-www-form-urlencoded;charset=utf-8",
 ];
 const FORM_CT_BAD: &[&str] = &[
+    "text/x-www-form-urlencoded",
+    "application/form-urlencoded",
     "application/json",
     "text/plain",
     "multipart/form-data; boundary=x",
@@ -717,14 +730,26 @@ const FORM_CT_BAD: &[&str] = &[
     "hello world",
     "text/x-www-form-urlencoded",
 ];
+/// `mime` reports `x-www-form-urlencoded` as the subtype of these: the pinned tree accepts them. The
+/// extractor has no rustdoc on this point (only the error text names the exact media type), so an
+/// acceptance is counted, not flagged.
+const FORM_CT_SUFFIXED: &[&str] = &["application/x-www-form-urlencoded+json", "application/x-www-form-urlencoded+xml"];
 const JSON_CT_GOOD: &[&str] = &[
     "application/json",
     "application/json; charset=utf-8",
     "application/vnd.api+json",
+    "application/hal+json",
     "application/ld+json;charset=UTF-8",
     "application/problem+json",
 ];
+/// MIME types are case-insensitive (RFC 2045); the rustdoc only names the lower-case spelling, so
+/// these are executed on every run but a rejection would only be counted.
+const JSON_CT_CASE: &[&str] = &["APPLICATION/JSON", "Application/Json", "application/HAL+JSON", "Application/Vnd.Api+Json"];
 const JSON_CT_BAD: &[&str] = &[
+    "text/x.custom+json",
+    "image/svg+json",
+    "model/gltf+json",
+    "application/x-json-stream",
     "text/plain",
     "application/x-www-form-urlencoded",
     "application/jsonx",
@@ -750,9 +775,18 @@ fn flat_case(env: &Env, shape: &'static Shape, src: Source, rng: &mut Rng, rep: 
     let blocked = stringy_blocked(&pairs, ctx);
     let err_v: Vec<&'static str> = if src == Source::Query { vec!["QueryDeserializationError"] } else { vec!["DeserializationError"] };
     let mut content_type: Option<String> = if src == Source::Form { Some(rng.pick(FORM_CT_GOOD).to_string()) } else { None };
-    let base_expect = if blocked { Expect::ErrOrOkEq(err_v.clone()) } else { Expect::OkEq };
+    // serde_html_form has no 128-bit integer support ("i128 is not supported"); the guide only says
+    // "numbers": a clean rejection is counted, a different value would still be flagged.
+    let wide = shape_has_128(&kind);
+    let base_expect = if blocked {
+        Expect::ErrOrOkEq(err_v.clone())
+    } else if wide {
+        Expect::OkEqOrAnyErr
+    } else {
+        Expect::OkEq
+    };
     let class_roll = if is_pool { 0 } else { rng.below(100) };
-    let mut class: &'static str = if is_pool { "pool" } else { "good" };
+    let mut class: &'static str = if is_pool { "pool" } else if wide { "good_int128" } else { "good" };
     let mut expect = base_expect.clone();
     let mut note = if blocked { "&str field whose wire form needs decoding" } else { "" };
     let mut extra: Vec<(String, String)> = vec![];
@@ -810,7 +844,11 @@ fn flat_case(env: &Env, shape: &'static Shape, src: Source, rng: &mut Rng, rep: 
         expect = Expect::Err(err_v.clone());
         note = "percent-escapes that do not decode to UTF-8";
     } else if src == Source::Form {
-        if rng.chance(1, 3) {
+        if rng.chance(1, 8) {
+            content_type = Some(rng.pick(FORM_CT_SUFFIXED).to_string());
+            class = "content_type_suffixed";
+            expect = Expect::NoPanicOnly;
+        } else if rng.chance(1, 3) {
             content_type = None;
             class = "content_type_missing";
             expect = Expect::Err(vec!["MissingContentType"]);
@@ -903,7 +941,16 @@ fn json_case(env: &Env, shape: &'static Shape, rng: &mut Rng, rep: &mut Report, 
     let mut note = "";
     let mut bytes: Vec<u8>;
     if class_roll < 56 {
-        class = if is_pool { "pool" } else { "good" };
+        class = if is_pool {
+            "pool"
+        } else if rng.chance(1, 12) {
+            content_type = Some(rng.pick(JSON_CT_CASE).to_string());
+            expect = Some(Expect::OkEqOrAnyErr);
+            note = "upper/mixed case media type (case-insensitive per RFC 2045; rustdoc names the lower-case form)";
+            "good_content_type_case"
+        } else {
+            "good"
+        };
         bytes = json_object(fields, vals_v, rng, &mut blocked, &[], None).into_bytes();
     } else if class_roll < 62 {
         class = "good_extra_member";
@@ -1074,6 +1121,56 @@ fn regression_inputs(env: &Env, table: &'static [Shape], rep: &mut Report) {
                 src: Source::Path, shape: one_string.name, class: "invalid_utf8", wire: "/u/%FF".into(),
                 template: Some("/u/{name}".into()), content_type: None, expected: name("x"), kind: kind_s.clone(),
                 expect: Expect::Err(vec!["InvalidUtf8InPathParameter"]), note: "regression input",
+            };
+            judge(&case, out, rep);
+        }
+    }
+    // every content-type spelling of the tables, on a body that is otherwise fine
+    let one_u8 = shape("OneU8");
+    let kind_u = Kind::Obj(one_u8.fields.clone());
+    let seven = Val::Obj(vec![("id".to_string(), Val::U(7))]);
+    let ct_case = |src: Source, ct: Option<&str>, class: &'static str, expect: Expect, rep: &mut Report| {
+        let (target, wire) = if src == Source::Json { ("/json", "{\"id\":7}") } else { ("/form", "id=7") };
+        let Some(head) = head_for(target, ct) else { return };
+        let body = env.buffered(wire.as_bytes().to_vec());
+        let out = guarded(|| if src == Source::Json { (one_u8.json)(&head, &body) } else { (one_u8.form)(&head, &body) });
+        let case = Case {
+            src, shape: one_u8.name, class, wire: wire.to_string(), template: None,
+            content_type: ct.map(|s| s.to_string()), expected: seven.clone(), kind: kind_u.clone(), expect,
+            note: "regression input",
+        };
+        judge(&case, out, rep);
+    };
+    for ct in JSON_CT_GOOD {
+        ct_case(Source::Json, Some(ct), "good", Expect::OkEq, rep);
+    }
+    for ct in JSON_CT_CASE {
+        ct_case(Source::Json, Some(ct), "good_content_type_case", Expect::OkEqOrAnyErr, rep);
+    }
+    for ct in JSON_CT_BAD {
+        ct_case(Source::Json, Some(ct), "content_type_mismatch", Expect::Err(vec!["ContentTypeMismatch"]), rep);
+    }
+    ct_case(Source::Json, None, "content_type_missing", Expect::Err(vec!["MissingContentType"]), rep);
+    for ct in FORM_CT_GOOD {
+        ct_case(Source::Form, Some(ct), "good", Expect::OkEq, rep);
+    }
+    for ct in FORM_CT_BAD {
+        ct_case(Source::Form, Some(ct), "content_type_mismatch", Expect::Err(vec!["ContentTypeMismatch"]), rep);
+    }
+    for ct in FORM_CT_SUFFIXED {
+        ct_case(Source::Form, Some(ct), "content_type_suffixed", Expect::NoPanicOnly, rep);
+    }
+    ct_case(Source::Form, None, "content_type_missing", Expect::Err(vec!["MissingContentType"]), rep);
+    // 128-bit path values at the edges
+    let wide = shape("Wide");
+    for (big, neg) in [(u64::MAX as u128 + 1, i64::MIN as i128 - 1), (u128::MAX, i128::MIN), (0, i128::MAX)] {
+        let path = format!("/w/{big}/{neg}");
+        if let Some(out) = run_path(wide, "/w/{big}/{neg}", &path, rep) {
+            let case = Case {
+                src: Source::Path, shape: wide.name, class: "good", wire: path, template: Some("/w/{big}/{neg}".into()),
+                content_type: None,
+                expected: Val::Obj(vec![("big".to_string(), Val::U(big)), ("neg".to_string(), Val::I(neg))]),
+                kind: Kind::Obj(wide.fields.clone()), expect: Expect::OkEq, note: "regression input",
             };
             judge(&case, out, rep);
         }
